@@ -17,15 +17,15 @@ open EngineModel.Db.Chain EngineModel.Spec EngineModel.ListAux
 /-! ### properties of `cores` of the entity table that survive deletions -/
 
 /-- ids are a key, and no (list, track) pair occurs twice. -/
-structure PairsOk (cs : List (Int × Int × Int)) : Prop where
+structure PairsOk (cs : List (Int × Int × Ent)) : Prop where
   ids_nodup : (cs.map (·.1)).Nodup
-  pair_unique : ∀ c ∈ cs, ∀ c' ∈ cs, c.2.1 = c'.2.1 → c.2.2 = c'.2.2 → c = c'
+  pair_unique : ∀ c ∈ cs, ∀ c' ∈ cs, c.2.1 = c'.2.1 → c.2.2.track = c'.2.2.track → c = c'
 
-theorem PairsOk.filter {cs : List (Int × Int × Int)} (h : PairsOk cs) (q : Int × Int × Int → Bool) : PairsOk (cs.filter q) :=
+theorem PairsOk.filter {cs : List (Int × Int × Ent)} (h : PairsOk cs) (q : Int × Int × Ent → Bool) : PairsOk (cs.filter q) :=
   ⟨List.Nodup.sublist (List.Sublist.map _ List.filter_sublist) h.ids_nodup,
    fun c hc c' hc' => h.pair_unique c (List.mem_filter.mp hc).1 c' (List.mem_filter.mp hc').1⟩
 
-theorem core_eq_of_id {cs : List (Int × Int × Int)} (hn : (cs.map (·.1)).Nodup) {c c' : Int × Int × Int}
+theorem core_eq_of_id {cs : List (Int × Int × Ent)} (hn : (cs.map (·.1)).Nodup) {c c' : Int × Int × Ent}
     (hc : c ∈ cs) (hc' : c' ∈ cs) (h : c.1 = c'.1) : c = c' := by
   induction cs with
   | nil => simp at hc
@@ -38,15 +38,15 @@ theorem core_eq_of_id {cs : List (Int × Int × Int)} (hn : (cs.map (·.1)).Nodu
     · exact ih hn.2 h1 h2
 
 /-- The last row of list `l` with track `t` (playlist_entity_table::get), read off `cores`. -/
-theorem lookup_core {pe : Table Int} {l t : Int} {e : Row Int}
-    (h : (pe.filter (fun r => r.key == l && r.val == t)).getLast? = some e) : core e ∈ cores pe ∧ e.key = l ∧ e.val = t := by
+theorem lookup_core {pe : Table Ent} {l t : Int} {e : Row Ent}
+    (h : (pe.filter (fun r => r.key == l && r.val.track == t)).getLast? = some e) : core e ∈ cores pe ∧ e.key = l ∧ e.val.track = t := by
   have hm := List.mem_of_getLast? h
   obtain ⟨h1, h2⟩ := List.mem_filter.mp hm
   simp only [Bool.and_eq_true, beq_iff_eq] at h2
   exact ⟨mem_cores.mpr ⟨e, h1, rfl⟩, h2.1, h2.2⟩
 
-theorem lookup_none {pe : Table Int} {l t : Int}
-    (h : (pe.filter (fun r => r.key == l && r.val == t)).getLast? = none) : ∀ c ∈ cores pe, ¬ (c.2.1 = l ∧ c.2.2 = t) := by
+theorem lookup_none {pe : Table Ent} {l t : Int}
+    (h : (pe.filter (fun r => r.key == l && r.val.track == t)).getLast? = none) : ∀ c ∈ cores pe, ¬ (c.2.1 = l ∧ c.2.2.track = t) := by
   intro c hc hh
   obtain ⟨r, hr, rfl⟩ := mem_cores.mp hc
   have := List.getLast?_eq_none_iff.mp h
@@ -54,9 +54,9 @@ theorem lookup_none {pe : Table Int} {l t : Int}
   exact this r hr (by simpa [core] using hh)
 
 /-- Deleting the entity found for (l, t) removes exactly the rows of that pair. -/
-theorem cores_delete_pair {pe : Table Int} (hp : PairsOk (cores pe)) {l t : Int} {e : Row Int}
-    (h : (pe.filter (fun r => r.key == l && r.val == t)).getLast? = some e) :
-    cores (deleteKeyed fires pe l e.id) = (cores pe).filter (fun c => !(c.2.1 == l && c.2.2 == t)) := by
+theorem cores_delete_pair {pe : Table Ent} (hp : PairsOk (cores pe)) {l t : Int} {e : Row Ent}
+    (h : (pe.filter (fun r => r.key == l && r.val.track == t)).getLast? = some e) :
+    cores (deleteKeyed fires pe l e.id) = (cores pe).filter (fun c => !(c.2.1 == l && c.2.2.track == t)) := by
   obtain ⟨hce, hel, het⟩ := lookup_core h
   rw [cores_deleteKeyed]
   · apply List.filter_congr
@@ -65,15 +65,15 @@ theorem cores_delete_pair {pe : Table Int} (hp : PairsOk (cores pe)) {l t : Int}
     · have : c = core e := core_eq_of_id hp.ids_nodup hc hce hid
       subst this
       simp [core, hel, het]
-    · have : ¬ (c.2.1 = l ∧ c.2.2 = t) := by
+    · have : ¬ (c.2.1 = l ∧ c.2.2.track = t) := by
         intro hh
         have := hp.pair_unique c hc (core e) hce (by simp [core, hh.1, hel]) (by simp [core, hh.2, het])
         exact hid (by rw [this]; rfl)
       have e1 : (c.1 != e.id) = true := by simpa using hid
       by_cases h1 : c.2.1 = l
-      · have h2 : c.2.2 ≠ t := fun e' => this ⟨h1, e'⟩
+      · have h2 : c.2.2.track ≠ t := fun e' => this ⟨h1, e'⟩
         have e2 : (c.2.1 == l) = true := by simpa using h1
-        have e3 : (c.2.2 == t) = false := by simpa using h2
+        have e3 : (c.2.2.track == t) = false := by simpa using h2
         rw [e1, e2, e3]; rfl
       · have e2 : (c.2.1 == l) = false := by simpa using h1
         rw [e1, e2]; rfl
@@ -82,42 +82,42 @@ theorem cores_delete_pair {pe : Table Int} (hp : PairsOk (cores pe)) {l t : Int}
     have : r.key = e.key := congrArg (·.2.1) this
     rw [this, hel]
 
-theorem filter_pair_none {cs : List (Int × Int × Int)} {l t : Int} (h : ∀ c ∈ cs, ¬ (c.2.1 = l ∧ c.2.2 = t)) :
-    cs.filter (fun c => !(c.2.1 == l && c.2.2 == t)) = cs := by
+theorem filter_pair_none {cs : List (Int × Int × Ent)} {l t : Int} (h : ∀ c ∈ cs, ¬ (c.2.1 = l ∧ c.2.2.track = t)) :
+    cs.filter (fun c => !(c.2.1 == l && c.2.2.track == t)) = cs := by
   apply List.filter_eq_self.mpr
   intro c hc
   have := h c hc
   by_cases h1 : c.2.1 = l
-  · have h2 : c.2.2 ≠ t := fun e' => this ⟨h1, e'⟩
+  · have h2 : c.2.2.track ≠ t := fun e' => this ⟨h1, e'⟩
     simp [h1, h2]
   · simp [h1]
 
 /-- database::remove_track's loop: the rows (l, tv) with l among the visited lists go. -/
-theorem cores_foldl_removeTrack (tv : Int) (L : List Int) (pe : Table Int) (hp : PairsOk (cores pe)) :
-    cores (L.foldl (fun (pe : Table Int) (l : Int) =>
-      match (pe.filter (fun r => r.key == l && r.val == tv)).getLast? with
+theorem cores_foldl_removeTrack (tv : Int) (L : List Int) (pe : Table Ent) (hp : PairsOk (cores pe)) :
+    cores (L.foldl (fun (pe : Table Ent) (l : Int) =>
+      match (pe.filter (fun r => r.key == l && r.val.track == tv)).getLast? with
       | some e => deleteKeyed fires pe l e.id
-      | none => pe) pe) = (cores pe).filter (fun c => !(L.contains c.2.1 && c.2.2 == tv)) := by
+      | none => pe) pe) = (cores pe).filter (fun c => !(L.contains c.2.1 && c.2.2.track == tv)) := by
   induction L generalizing pe with
   | nil => simp only [List.foldl_nil, List.contains_nil, Bool.false_and, Bool.not_false]
            exact (List.filter_eq_self.mpr (fun _ _ => rfl)).symm
   | cons a L ih =>
     simp only [List.foldl_cons]
-    have hstep : ∀ pe1 : Table Int, cores pe1 = (cores pe).filter (fun c => !(c.2.1 == a && c.2.2 == tv)) →
-        cores (L.foldl (fun (pe : Table Int) (l : Int) =>
-          match (pe.filter (fun r => r.key == l && r.val == tv)).getLast? with
+    have hstep : ∀ pe1 : Table Ent, cores pe1 = (cores pe).filter (fun c => !(c.2.1 == a && c.2.2.track == tv)) →
+        cores (L.foldl (fun (pe : Table Ent) (l : Int) =>
+          match (pe.filter (fun r => r.key == l && r.val.track == tv)).getLast? with
           | some e => deleteKeyed fires pe l e.id
-          | none => pe) pe1) = (cores pe).filter (fun c => !((a :: L).contains c.2.1 && c.2.2 == tv)) := by
+          | none => pe) pe1) = (cores pe).filter (fun c => !((a :: L).contains c.2.1 && c.2.2.track == tv)) := by
       intro pe1 h1
       rw [ih pe1 (h1 ▸ hp.filter _), h1, List.filter_filter]
       apply List.filter_congr
       intro c _
       by_cases hca : c.2.1 = a
-      · by_cases ht : c.2.2 = tv <;> simp [hca, ht, List.contains_cons]
+      · by_cases ht : c.2.2.track = tv <;> simp [hca, ht, List.contains_cons]
       · have : (c.2.1 == a) = false := by simpa using hca
         rw [contains_cons_ne hca, this]
         simp
-    cases hl : (pe.filter (fun r => r.key == a && r.val == tv)).getLast? with
+    cases hl : (pe.filter (fun r => r.key == a && r.val.track == tv)).getLast? with
     | none =>
       simp only
       exact hstep pe (filter_pair_none (lookup_none hl)).symm
@@ -129,13 +129,15 @@ theorem cores_foldl_removeTrack (tv : Int) (L : List Int) (pe : Table Int) (hp :
 
 structure MemInv (d : Db) : Prop where
   pairs : PairsOk (cores d.pe)
-  live : ∀ c ∈ cores d.pe, c.2.1 ∈ ids d.pl ∧ c.2.2 ∈ d.tracks
+  live : ∀ c ∈ cores d.pe, c.2.1 ∈ ids d.pl ∧ c.2.2.track ∈ d.tracks
   tracks_nodup : d.tracks.Nodup
   tracks_seq : ∀ t ∈ d.tracks, 0 < t ∧ t ≤ d.trSeq
   trSeq0 : 0 ≤ d.trSeq
+  /-- through the crate API every entry carries the library's own database uuid -/
+  own : ∀ c ∈ cores d.pe, c.2.2.uuid = 0
 
 theorem memInv_empty : MemInv Db.empty := by
-  refine ⟨⟨?_, ?_⟩, ?_, ?_, ?_, ?_⟩ <;> simp [Db.empty, cores]
+  refine ⟨⟨?_, ?_⟩, ?_, ?_, ?_, ?_, ?_⟩ <;> simp [Db.empty, cores]
 
 theorem absM_pairs (d : Db) : (absM d).pairs = (cores d.pe).map pairOf := rfl
 
@@ -144,14 +146,14 @@ theorem peGet_isSome_iff {d : Db} {l t : Int} : (peGet d l t).isSome = true ↔ 
   rw [absM_pairs]
   constructor
   · intro h
-    cases hg : (d.pe.filter (fun r => r.key == l && r.val == t)).getLast? with
+    cases hg : (d.pe.filter (fun r => r.key == l && r.val.track == t)).getLast? with
     | none => rw [hg] at h; simp at h
     | some e =>
       obtain ⟨h1, h2, h3⟩ := lookup_core hg
       exact List.mem_map.mpr ⟨core e, h1, by simp [pairOf, core, h2, h3]⟩
   · intro h
     obtain ⟨c, hc, e⟩ := List.mem_map.mp h
-    cases hg : (d.pe.filter (fun r => r.key == l && r.val == t)).getLast? with
+    cases hg : (d.pe.filter (fun r => r.key == l && r.val.track == t)).getLast? with
     | some e' => rfl
     | none =>
       exfalso
@@ -161,6 +163,16 @@ theorem peGet_isSome_iff {d : Db} {l t : Int} : (peGet d l t).isSome = true ↔ 
 theorem peGet_none_iff {d : Db} {l t : Int} : peGet d l t = none ↔ (l, t) ∉ (absM d).pairs := by
   rw [← peGet_isSome_iff]
   cases peGet d l t <;> simp
+
+/-- With only local entries, add_back's duplicate test for the local uuid coincides with get(list, track). -/
+theorem peFind_local {d : Db} (h : ∀ c ∈ cores d.pe, c.2.2.uuid = 0) (l t : Int) : peFind d l t 0 = peGet d l t := by
+  unfold peFind peGet
+  congr 1
+  apply List.filter_congr
+  intro r hr
+  have := h (core r) (mem_cores.mpr ⟨r, hr, rfl⟩)
+  simp only [core] at this
+  simp [this]
 
 /-! ### one step of the crate / track API against Spec.Members -/
 
@@ -178,7 +190,8 @@ theorem absM_congr_pl {d d' : Db} (h1 : ids d'.pl = ids d.pl) (h2 : d'.pe = d.pe
 
 theorem MemInv.congr {d d' : Db} (h : MemInv d) (h1 : ids d'.pl = ids d.pl) (h2 : d'.pe = d.pe) (h3 : d'.tracks = d.tracks)
     (h4 : d'.trSeq = d.trSeq) : MemInv d' := by
-  refine ⟨by rw [h2]; exact h.pairs, ?_, by rw [h3]; exact h.tracks_nodup, by rw [h3, h4]; exact h.tracks_seq, by rw [h4]; exact h.trSeq0⟩
+  refine ⟨by rw [h2]; exact h.pairs, ?_, by rw [h3]; exact h.tracks_nodup, by rw [h3, h4]; exact h.tracks_seq, by rw [h4]; exact h.trSeq0,
+    by rw [h2]; exact h.own⟩
   rw [h2, h1, h3]; exact h.live
 
 /-! ### operations on the Playlist table alone -/
@@ -253,7 +266,8 @@ theorem mstep_plOnly {d : Db} (hM : MemInv d) (hP : PlInv d) {op : Op} (h : isPl
         rw [absM_of hfr, hids']
         rfl
       · refine ⟨by rw [hfr.1]; exact hM.pairs, ?_, by rw [hfr.2.2.1]; exact hM.tracks_nodup,
-          by rw [hfr.2.2.1, hfr.2.2.2]; exact hM.tracks_seq, by rw [hfr.2.2.2]; exact hM.trSeq0⟩
+          by rw [hfr.2.2.1, hfr.2.2.2]; exact hM.tracks_seq, by rw [hfr.2.2.2]; exact hM.trSeq0,
+          by rw [hfr.1]; exact hM.own⟩
         rw [hfr.1, hfr.2.2.1, hids']
         intro c hcm
         exact ⟨List.mem_append_left _ (hM.live c hcm).1, (hM.live c hcm).2⟩
@@ -273,7 +287,7 @@ theorem mstep_plOnly {d : Db} (hM : MemInv d) (hP : PlInv d) {op : Op} (h : isPl
 
 /-! ### remove_crate -/
 
-theorem cores_foldl_clearKey {t : Table Int} (hn : (ids t).Nodup) (G : List Int) :
+theorem cores_foldl_clearKey {t : Table Ent} (hn : (ids t).Nodup) (G : List Int) :
     cores (G.foldl (fun t i => clearKey fires t i) t) = (cores t).filter (fun c => !G.contains c.2.1) := by
   induction G generalizing t with
   | nil =>
@@ -316,7 +330,8 @@ theorem mstep_removeCrate {S : Ord} {d : Db} (hM : MemInv d) (hC : ChInv S d) (c
       simp only [absM, hids, hpe, htr, List.filter_map]
       rfl
     · rw [hstep]
-      refine ⟨by rw [hpe]; exact hM.pairs.filter _, ?_, hM.tracks_nodup, hM.tracks_seq, hM.trSeq0⟩
+      refine ⟨by rw [hpe]; exact hM.pairs.filter _, ?_, hM.tracks_nodup, hM.tracks_seq, hM.trSeq0,
+        by rw [hpe]; exact fun k hk => hM.own k (List.mem_filter.mp hk).1⟩
       intro k hk
       rw [hpe] at hk
       obtain ⟨hk1, hk2⟩ := List.mem_filter.mp hk
@@ -332,7 +347,7 @@ theorem mstep_removeCrate {S : Ord} {d : Db} (hM : MemInv d) (hC : ChInv S d) (c
 theorem mem_crates_iff {d : Db} {c : Int} : (absM d).crates.contains c = true ↔ c ∈ ids d.pl := by
   simp [absM]
 
-theorem map_pairOf_filter (cs : List (Int × Int × Int)) (q : Int × Int → Bool) :
+theorem map_pairOf_filter (cs : List (Int × Int × Ent)) (q : Int × Int → Bool) :
     (cs.filter (fun c => q (pairOf c))).map pairOf = (cs.map pairOf).filter q := by
   rw [List.filter_map]; rfl
 
@@ -347,7 +362,7 @@ theorem mstep_createTrack {d : Db} (hM : MemInv d) : MStep d .createTrack := by
       Members.Verdict.next]
     rfl
   · rw [hstep]
-    refine ⟨hM.pairs, ?_, ?_, ?_, by have := hM.trSeq0; show 0 ≤ d.trSeq + 1; omega⟩
+    refine ⟨hM.pairs, ?_, ?_, ?_, by have := hM.trSeq0; show 0 ≤ d.trSeq + 1; omega, hM.own⟩
     · intro c hc
       exact ⟨(hM.live c hc).1, List.mem_append_left _ (hM.live c hc).2⟩
     · refine List.nodup_append.mpr ⟨hM.tracks_nodup, by simp, ?_⟩
@@ -367,14 +382,14 @@ theorem mstep_removeTrack {d : Db} (hM : MemInv d) (t : Int) : MStep d (.removeT
   · have hct : d.tracks.contains t = true := List.contains_iff_mem.mpr hc
     have hstep : step d (.removeTrack t) = ({ d with
         pe := (ids d.pl).foldl (fun pe l =>
-          match (pe.filter (fun r => r.key == l && r.val == t)).getLast? with
+          match (pe.filter (fun r => r.key == l && r.val.track == t)).getLast? with
           | some e => deleteKeyed fires pe l e.id
           | none => pe) d.pe,
         tracks := d.tracks.filter (· != t) }, .ok none) := by
       show (if d.tracks.contains t then _ else _) = _
       rw [if_pos hct]
       rfl
-    have hpe : cores (step d (.removeTrack t)).1.pe = (cores d.pe).filter (fun c => !(c.2.2 == t)) := by
+    have hpe : cores (step d (.removeTrack t)).1.pe = (cores d.pe).filter (fun c => !(c.2.2.track == t)) := by
       rw [hstep]
       show cores ((ids d.pl).foldl _ d.pe) = _
       rw [cores_foldl_removeTrack t (ids d.pl) d.pe hM.pairs]
@@ -399,7 +414,8 @@ theorem mstep_removeTrack {d : Db} (hM : MemInv d) (t : Int) : MStep d (.removeT
     · have h3 : (step d (.removeTrack t)).1.tracks = d.tracks.filter (· != t) := by rw [hstep]
       have h4 : (step d (.removeTrack t)).1.pl = d.pl := by rw [hstep]
       have h5 : (step d (.removeTrack t)).1.trSeq = d.trSeq := by rw [hstep]
-      refine ⟨by rw [hpe]; exact hM.pairs.filter _, ?_, ?_, ?_, by rw [h5]; exact hM.trSeq0⟩
+      refine ⟨by rw [hpe]; exact hM.pairs.filter _, ?_, ?_, ?_, by rw [h5]; exact hM.trSeq0,
+        by rw [hpe]; exact fun k hk => hM.own k (List.mem_filter.mp hk).1⟩
       · intro c hcm
         rw [hpe] at hcm
         obtain ⟨h1, h2⟩ := List.mem_filter.mp hcm
@@ -418,20 +434,21 @@ theorem mstep_removeTrack {d : Db} (hM : MemInv d) (t : Int) : MStep d (.removeT
 theorem mstep_addTrack {S : Ord} {d : Db} (hM : MemInv d) (hC : ChInv S d) (c t : Int) : MStep d (.addTrack c t) := by
   by_cases he : plExists d c = true
   · by_cases ht : t ∈ d.tracks
-    · have hstep0 : step d (.addTrack c t) = peAddBack d c t false := by simp [step, he, ht]
+    · have hstep0 : step d (.addTrack c t) = peAddBack d c t 0 false := by simp [step, he, ht]
+      have hfind : peFind d c t 0 = peGet d c t := peFind_local hM.own c t
       have hcm : c ∈ (absM d).crates := plExists_iff.mp he
       have htm : t ∈ (absM d).tracks := ht
       cases hg : peGet d c t with
       | some e =>
-        have hstep : step d (.addTrack c t) = (d, .ok (some e.id)) := by rw [hstep0]; simp [peAddBack, hg]
+        have hstep : step d (.addTrack c t) = (d, .ok (some e.id)) := by rw [hstep0]; simp [peAddBack, hfind, hg]
         have hp : (c, t) ∈ (absM d).pairs := peGet_isSome_iff.mp (by rw [hg]; rfl)
         refine ⟨?_, by rw [hstep]; exact hM⟩
         rw [hstep]
         simp [judgeM, outcome, membersOps, judgeM1, Members.step, hcm, htm, hp, Members.Verdict.next]
       | none =>
         have hstep : step d (.addTrack c t) =
-            ({ d with pe := appendBack d.pe (d.peSeq + 1) c t, peSeq := d.peSeq + 1 }, .ok (some (d.peSeq + 1))) := by
-          rw [hstep0]; simp [peAddBack, hg]
+            ({ d with pe := appendBack d.pe (d.peSeq + 1) c ⟨t, 0⟩, peSeq := d.peSeq + 1 }, .ok (some (d.peSeq + 1))) := by
+          rw [hstep0]; simp [peAddBack, hfind, hg]
         have hp : (c, t) ∉ (absM d).pairs := peGet_none_iff.mp hg
         refine ⟨?_, ?_⟩
         · rw [hstep]
@@ -440,8 +457,8 @@ theorem mstep_addTrack {S : Ord} {d : Db} (hM : MemInv d) (hC : ChInv S d) (c t 
         · rw [hstep]
           have hfresh : d.peSeq + 1 ∉ (cores d.pe).map (·.1) := by
             rw [← ids_eq_cores]; intro h; have := hC.peSeq _ h; omega
-          refine ⟨?_, ?_, hM.tracks_nodup, hM.tracks_seq, hM.trSeq0⟩
-          · show PairsOk (cores (appendBack d.pe (d.peSeq + 1) c t))
+          refine ⟨?_, ?_, hM.tracks_nodup, hM.tracks_seq, hM.trSeq0, ?_⟩
+          · show PairsOk (cores (appendBack d.pe (d.peSeq + 1) c ⟨t, 0⟩))
             rw [cores_appendBack]
             constructor
             · rw [List.map_append]
@@ -459,13 +476,20 @@ theorem mstep_addTrack {S : Ord} {d : Db} (hM : MemInv d) (hC : ChInv S d) (c t 
               · exfalso; apply hp; rw [absM_pairs]
                 exact List.mem_map.mpr ⟨y, hy, by simp only [pairOf]; simp only at e1 e2; rw [← e1, ← e2]⟩
               · rfl
-          · show ∀ k ∈ cores (appendBack d.pe (d.peSeq + 1) c t), k.2.1 ∈ ids d.pl ∧ k.2.2 ∈ d.tracks
+          · show ∀ k ∈ cores (appendBack d.pe (d.peSeq + 1) c ⟨t, 0⟩), k.2.1 ∈ ids d.pl ∧ k.2.2.track ∈ d.tracks
             rw [cores_appendBack]
             intro k hk
             simp only [List.mem_append, List.mem_singleton] at hk
             rcases hk with hk | rfl
             · exact hM.live k hk
             · exact ⟨plExists_iff.mp he, ht⟩
+          · show ∀ k ∈ cores (appendBack d.pe (d.peSeq + 1) c ⟨t, 0⟩), k.2.2.uuid = 0
+            rw [cores_appendBack]
+            intro k hk
+            simp only [List.mem_append, List.mem_singleton] at hk
+            rcases hk with hk | rfl
+            · exact hM.own k hk
+            · rfl
     · have hstep : step d (.addTrack c t) = (d, .throw (exn "track_deleted")) := by simp [step, he, ht]
       have hcm : c ∈ (absM d).crates := plExists_iff.mp he
       have htm : t ∉ (absM d).tracks := ht
@@ -498,13 +522,14 @@ theorem mstep_removeTrackFrom {d : Db} (hM : MemInv d) (c t : Int) : MStep d (.r
       congr 1
       have := map_pairOf_filter (cores d.pe) (fun p => !(p.1 == c && p.2 == t))
       simp only [pairOf] at this
-      rw [show (List.filter (fun c_1 => !(c_1.2.1 == c && c_1.2.2 == t)) (cores d.pe)).map pairOf = _ from this]
+      rw [show (List.filter (fun c_1 => !(c_1.2.1 == c && c_1.2.2.track == t)) (cores d.pe)).map pairOf = _ from this]
       apply List.filter_congr
       intro p _
       cases p; rfl
     · rw [hstep]
       refine ⟨by show PairsOk (cores (deleteKeyed fires d.pe c e.id)); rw [hcores]; exact hM.pairs.filter _, ?_,
-        hM.tracks_nodup, hM.tracks_seq, hM.trSeq0⟩
+        hM.tracks_nodup, hM.tracks_seq, hM.trSeq0,
+        by show ∀ k ∈ cores (deleteKeyed fires d.pe c e.id), _; rw [hcores]; exact fun k hk => hM.own k (List.mem_filter.mp hk).1⟩
       show ∀ k ∈ cores (deleteKeyed fires d.pe c e.id), _
       rw [hcores]
       intro k hk
@@ -546,7 +571,8 @@ theorem mstep_clearTracks {S : Ord} {d : Db} (hM : MemInv d) (hC : ChInv S d) (c
       exact hcm (e ▸ (hM.live k hk).1)
   · rw [hstep]
     refine ⟨by show PairsOk (cores (clearKey fires d.pe c)); rw [hcores]; exact hM.pairs.filter _, ?_,
-      hM.tracks_nodup, hM.tracks_seq, hM.trSeq0⟩
+      hM.tracks_nodup, hM.tracks_seq, hM.trSeq0,
+      by show ∀ k ∈ cores (clearKey fires d.pe c), _; rw [hcores]; exact fun k hk => hM.own k (List.mem_filter.mp hk).1⟩
     show ∀ k ∈ cores (clearKey fires d.pe c), _
     rw [hcores]
     intro k hk
